@@ -21,17 +21,25 @@ pub type BoxFut = Pin<Box<dyn Future<Output = ()> + Send>>;
 
 struct Flag {
     woken: AtomicBool,
-    wakes: AtomicU64,
+    /// global sequence number of the wake that enabled the task (FIFO order of the default schedule)
+    seq: AtomicU64,
+    clock: Arc<AtomicU64>,
+}
+
+impl Flag {
+    fn mark(&self) {
+        if !self.woken.swap(true, Ordering::SeqCst) {
+            self.seq.store(self.clock.fetch_add(1, Ordering::SeqCst) + 1, Ordering::SeqCst);
+        }
+    }
 }
 
 impl Wake for Flag {
     fn wake(self: Arc<Self>) {
-        self.woken.store(true, Ordering::SeqCst);
-        self.wakes.fetch_add(1, Ordering::SeqCst);
+        self.mark();
     }
     fn wake_by_ref(self: &Arc<Self>) {
-        self.woken.store(true, Ordering::SeqCst);
-        self.wakes.fetch_add(1, Ordering::SeqCst);
+        self.mark();
     }
 }
 
@@ -51,13 +59,13 @@ impl Task {
 #[derive(Default)]
 pub struct Driver {
     pub tasks: Vec<Task>,
-    /// order in which tasks became enabled (FIFO default policy)
     pub steps: u64,
+    clock: Arc<AtomicU64>,
 }
 
 impl Driver {
     pub fn new() -> Self {
-        Driver { tasks: Vec::new(), steps: 0 }
+        Driver { tasks: Vec::new(), steps: 0, clock: Arc::new(AtomicU64::new(0)) }
     }
 
     pub fn spawn(&mut self, name: impl Into<String>, fut: impl Future<Output = ()> + Send + 'static) -> usize {
@@ -65,7 +73,11 @@ impl Driver {
         self.tasks.push(Task {
             name: name.into(),
             fut: Some(Box::pin(tokio::task::unconstrained(boxed))),
-            flag: Arc::new(Flag { woken: AtomicBool::new(true), wakes: AtomicU64::new(0) }),
+            flag: {
+                let f = Arc::new(Flag { woken: AtomicBool::new(false), seq: AtomicU64::new(0), clock: self.clock.clone() });
+                f.mark();
+                f
+            },
             polls: 0,
         });
         self.tasks.len() - 1
@@ -79,6 +91,23 @@ impl Driver {
             .filter(|(_, t)| !t.done() && t.flag.woken.load(Ordering::SeqCst))
             .map(|(i, _)| i)
             .collect()
+    }
+
+    /// enabled tasks in the order in which they were woken (what a FIFO run queue would do)
+    pub fn enabled_fifo(&self) -> Vec<usize> {
+        let mut v: Vec<(u64, usize)> = self
+            .tasks
+            .iter()
+            .enumerate()
+            .filter(|(_, t)| !t.done() && t.flag.woken.load(Ordering::SeqCst))
+            .map(|(i, t)| (t.flag.seq.load(Ordering::SeqCst), i))
+            .collect();
+        v.sort();
+        v.into_iter().map(|(_, i)| i).collect()
+    }
+
+    pub fn name(&self, i: usize) -> &str {
+        &self.tasks[i].name
     }
 
     pub fn all_done(&self) -> bool {
